@@ -8,7 +8,7 @@
    through Flocq. *)
 From Coq Require Import ZArith Reals Lia Lra Bool Floats.SpecFloat.
 From Flocq Require Import Core BinarySingleNaN.
-From Coupe Require Import Lib.Prelude Lib.SFloat Model.ArithW Proofs.F64AddExact Proofs.VnBestWTermination.
+From Coupe Require Import Lib.Prelude Lib.SFloat Model.ArithW Model.NumPart Model.Vn Model.VnW Proofs.F64AddExact Proofs.VnBestWTermination.
 Open Scope R_scope.
 
 #[local] Instance Hprec' : FLX.Prec_gt_0 53%Z := eq_refl _.
@@ -234,3 +234,66 @@ Proof.
   change (S754_zero false) with (B2SF (B754_zero false : bf64)).
   apply ltb_false_of_le; auto. rewrite R1. replace (B2R X - B2R X) with 0 by lra. rewrite rnd_0. cbn. lra.
 Qed.
+
+(* ---------- the two facts where the sum may overflow ---------- *)
+
+Lemma ltb_inf_l y : SFltb (S754_infinity false) y = false.
+Proof. destruct y as [[]|[]| |[] ? ?]; reflexivity. Qed.
+
+Lemma overflow_inf : binary_overflow 53 1024 mode_NE false = S754_infinity false.
+Proof. reflexivity. Qed.
+
+Lemma rnd_nonneg r : 0 <= r -> 0 <= rnd64 r.
+Proof. intros H. rewrite <- rnd_0. now apply rnd_mono. Qed.
+
+Lemma fact_add_ge x w : okV x -> okV w -> SFltb (f64_add x w) x = false.
+Proof.
+  intros Hx Hw. destruct (lift x Hx) as [X [<- [Fx [Sx Px]]]]. destruct (lift w Hw) as [Wb [<- [Fw [Sw Pw]]]].
+  rewrite add_link'. pose proof (Bplus_correct 53 1024 _ _ mode_NE X Wb Fx Fw) as C.
+  destruct (Rlt_bool _ _).
+  - destruct C as [C1 [C2 _]]. apply ltb_false_of_le; auto. rewrite C1.
+    rewrite <- (rnd_id (B2R X)) at 1 by apply F64_B2R. apply rnd_mono. lra.
+  - destruct C as [C1 _]. rewrite C1, Sx, overflow_inf. apply ltb_inf_l.
+Qed.
+
+Lemma fact_add_mono x w w' : okV x -> okV w -> okV w' ->
+  SFltb w' w = false -> SFltb (f64_add x w') (f64_add x w) = false.
+Proof.
+  intros Hx Hw Hw'. destruct (lift x Hx) as [X [<- [Fx [Sx Px]]]]. destruct (lift w Hw) as [Wb [<- [Fw [Sw Pw]]]].
+  destruct (lift w' Hw') as [Wb' [<- [Fw' [Sw' Pw']]]].
+  intros H. apply ltb_false_le in H; auto.
+  rewrite !add_link'. pose proof (Bplus_correct 53 1024 _ _ mode_NE X Wb' Fx Fw') as C'.
+  destruct (Rlt_bool_spec (Rabs (rnd64 (B2R X + B2R Wb'))) (bpow radix2 1024)) as [NO'|OV'].
+  - destruct C' as [C1' [C2' _]].
+    pose proof (Bplus_correct 53 1024 _ _ mode_NE X Wb Fx Fw) as C.
+    assert (NO : Rlt_bool (Rabs (rnd64 (B2R X + B2R Wb))) (bpow radix2 1024) = true).
+    { apply Rlt_bool_true. eapply Rle_lt_trans; [|exact NO'].
+      rewrite !Rabs_pos_eq by (apply rnd_nonneg; lra). apply rnd_mono. lra. }
+    rewrite NO in C. destruct C as [C1 [C2 _]].
+    apply ltb_false_of_le; auto. rewrite C1, C1'. apply rnd_mono. lra.
+  - destruct C' as [C1' _]. rewrite C1', Sx, overflow_inf. apply ltb_inf_l.
+Qed.
+
+(* ---------- all ten ---------- *)
+
+Theorem f64_rounding_facts_hold : f64_rounding_facts.
+Proof.
+  constructor.
+  - exact fact_add_ge.
+  - exact fact_sub_le.
+  - exact fact_within_sub.
+  - exact fact_within_add.
+  - exact fact_add_mono.
+  - exact fact_sub_anti.
+  - exact fact_add_ok.
+  - exact fact_sub_ok.
+  - exact fact_gap_ok.
+  - exact fact_sub_self.
+Qed.
+
+(* VnBest with the progress test of fix 98041ea terminates on finite non-negative binary64 weights whose
+   initial part loads are finite -- no premise about the arithmetic left *)
+Theorem vn_bestW_f64_terminates_closed : forall ws p, Forall okV ws ->
+  (forall L, parts_loadW F64arith ws p (part_count p) = Ok L -> Forall okV L) ->
+  exists fuel0, forall fuel, (fuel0 <= fuel)%nat -> vn_bestW F64arith true fuel ws p <> OutOfFuel.
+Proof. exact (vn_bestW_f64_terminates f64_rounding_facts_hold). Qed.
